@@ -400,7 +400,8 @@ pub fn exec(ctx: &mut Ctx, case: &GraphCase, spec: Spec, log_events: bool) -> Gr
             let p = case.path_of(i);
             let bytes = match (case.stale_ext, expect.built.outputs.get(&p), old_expect.built.outputs.get(&p)) {
                 (true, Some(fresh), _) => format!("{}{}:stale-extension:g0\nmore\n", fresh[0], graph_name(i)).into_bytes(),
-                (_, _, Some(v)) => v[0].clone().into_bytes(),
+                // (an empty previous output would be no leftover at all: use the marker text then)
+                (_, _, Some(v)) if !v[0].is_empty() => v[0].clone().into_bytes(),
                 _ => format!("{}:stale:g0\n", graph_name(i)).into_bytes(),
             };
             if case.stale_link && !case.subdirs && !case.linked && !case.outside {
